@@ -36,9 +36,9 @@ type RuleCase struct {
 	ViaUpdate bool `json:"reached_via_update,omitempty"`
 	// SecondRoute: every rule has a further route on a path of its own that is never requested, with a path_params
 	// condition that never holds; the rule's first route must be unaffected by it
-	SecondRoute bool `json:"rules_have_a_second_route,omitempty"`
-	Method     string     `json:"method"`
-	Path       string     `json:"request_path"`
+	SecondRoute bool   `json:"rules_have_a_second_route,omitempty"`
+	Method      string `json:"method"`
+	Path        string `json:"request_path"`
 }
 
 var rlExprs = []string{"/a/b", "/a/:p1", "/a/**", "/:p0/b", "/**", "/a/:p1/", "/a/*r"}
